@@ -238,7 +238,9 @@ func (c *Config) NewServer(
 		// [pprof.Index] requires the URL path to start with "/debug/pprof/".
 		indexPath := joinPatternPath(basePath, "/debug/pprof/")
 		prefix := strings.TrimSuffix(indexPath, "/debug/pprof/")
-		mux.Handle(indexPath, realIP(logPprofRequests(logger, http.StripPrefix(prefix, http.HandlerFunc(pprof.Index)))))
+		// The method makes the pattern more specific than the static file server's "GET /".
+		// Without it, the two patterns conflict and [http.ServeMux.Handle] panics.
+		mux.Handle("GET "+indexPath, realIP(logPprofRequests(logger, http.StripPrefix(prefix, http.HandlerFunc(pprof.Index)))))
 
 		register("/debug/pprof/cmdline", pprof.Cmdline)
 		register("/debug/pprof/profile", pprof.Profile)
